@@ -60,8 +60,9 @@ ASSUMPTIONS = ['stored samples are labels (small integers exactly representable 
                'antennas with the same stored history are compared with each other from dump 1 on (the readers fold a '
                'first dump before a slew into the slew on the reference antenna only)',
                'v4 timestamps are what TelstateDataSource serves (always regular; C17 owns their computation)',
-               'the singleton-dimension convention of the answer (keepdims, v1 always 3-d, dropped axes) is not '
-               'compared: answers are brought to the canonical 3-axis shape',
+               'elements are compared in the canonical 3-axis form; the dimensionality of the answer itself (scalar-indexed '
+               'axes dropped; all three kept under keepdims=True of v2 / v3) is compared for v2 / v3 / v4, not for H5DataV1 '
+               '(its concatenation keeps the time axis and treats a scalar first index differently from the others)',
                'second-stage indices are in range and of a form the indexer class supports (LazyIndexer: no negative '
                'steps, strictly increasing lists; C04 / C05 own the indexer classes); a read that selects at least one '
                'element must be answered; a read that selects nothing may raise (v1: ConcatenatedLazyIndexer on empty '
@@ -656,6 +657,10 @@ def gen_axis_index(rng, n, rich):
 def gen_ix2(rng, shape, rich):
     naxes = rng.choice([0, 1, 2, 3, 3, 3]) if len(shape) == 3 else rng.choice([0, 1, 1])
     items = [gen_axis_index(rng, shape[a], rich) for a in range(naxes)]
+    if len(shape) == 3 and all(n > 0 for n in shape) and rng.random() < 0.07:
+        # one element: a scalar on every axis (the answer is 0-dimensional, or (1, 1, 1) under keepdims)
+        zs = [rng.randint(-n, n - 1) for n in shape]
+        items = [(z, [0, z], 'int' if z >= 0 else 'negint', z >= 0) for z in zs]
     py = tuple(i[0] for i in items)
     wire = [i[1] for i in items]
     forms = [i[2] for i in items]
@@ -816,7 +821,8 @@ def run_impl(fx, rng, nops, script=None):
             except Exception as e:      # noqa: BLE001
                 exc = e
             ops.append([2, idn, wire])
-            log.append(dict(op='index', id=idn, kind=kind, arr=arr, exc=repr(exc) if exc else None, forms=forms,
+            log.append(dict(op='index', id=idn, kind=kind, arr=arr, exc=repr(exc) if exc else None, forms=forms, wire=wire,
+                            true_shape=None if arr is None else [int(v) for v in arr.shape],
                             basic=basic, stale=at < nsel, acq_shape=shape,
                             desc=['index', idn, kind, describe_ix(py)]))
         else:
@@ -855,6 +861,15 @@ def compare_history(ctx, fx, ops, log, mouts, hid, note=True):
 
     def case(n):
         return dict(hid=hid, fail_at=n, spec=fx.spec, ops=descs[:n + 1])
+
+    # the dimensionality of every answered read (v2 / v3 incl. keepdims, v4): wire_1004 on the canonical spec shape
+    dims = {}
+    if fmt != 'v1':
+        want = [(n, e) for n, e in enumerate(log) if e['op'] == 'index' and n < len(mouts) and e.get('arr') is not None
+                and mouts[n][1][0] == 1]
+        outs = ctx.model([[1004, [FMT_ID[fmt], int(bool(fx.spec.get('keepdims'))), KIND_ID[e['kind']], e['wire'],
+                                  mouts[n][1][1]]] for n, e in want]) if want else []
+        dims = dict((n, o) for (n, e), o in zip(want, outs))
 
     for n, e in enumerate(log):
         if n >= len(mouts):
@@ -1007,6 +1022,19 @@ def compare_history(ctx, fx, ops, log, mouts, hid, note=True):
             ctx.disagree(sig0 + ';what=' + symptom, case(n), list(arr.shape), shape,
                          'answer has %d elements, the selection x index has %d' % (arr.size, size), spec=shape)
             continue
+        if n in dims:
+            # C01_answer_dimensions: scalar-indexed axes are dropped, unless the v2 / v3 data set was opened with
+            # keepdims=True, which keeps all three axes of vis / flags / weights
+            a_shape, np_shape, old_flags = dims[n]
+            nsc = sum(1 for f in e['forms'] if f in ('int', 'negint'))
+            ctx.count('dims=%s:keepdims=%d:scalars=%d' % (fmt, int(bool(fx.spec.get('keepdims'))), nsc))
+            if e['true_shape'] != a_shape:
+                before = kind == 'flags' and e['true_shape'] == old_flags and old_flags != a_shape
+                ctx.disagree('fmt=%s;kind=%s;keepdims=%d;scalars=%d;what=%s' % (
+                    fmt, kind, int(bool(fx.spec.get('keepdims'))), nsc,
+                    'answer_dims_flags_mask_axis' if before else 'answer_dims'), case(n), e['true_shape'], a_shape,
+                    'the answer has the right elements but not the documented dimensionality (a scalar index drops its '
+                    'axis; keepdims=True keeps all three axes of vis / flags / weights)', spec=a_shape)
         arr = arr.reshape(shape)
         if kind == 'timestamps':
             exp = [ts_of_label[l] for l in labels]
